@@ -25,6 +25,8 @@ TECHNIQUE += '; the keyword check only accepts or rejects: semantics_call + vali
 LEVEL_TEXT += ' Added clause: an accepted name is handed on unchanged, also under ignorecase.'
 TECHNIQUE += '; the optimisation pass keeps calls of @name rules (= C01.R13)'
 LEVEL_TEXT += ' Added clause: an alias of an @name rule is not optimised away.'
+TECHNIQUE += '; Grammar.__init__ interpreted with quoted, non-identifier keywords'
+LEVEL_TEXT += ' Added clause: every declared keyword reaches the table.'
 LEVEL_NOTE = 'Trusted: dataclasses.replace re-runs __post_init__ (so a per-parse ignorecase=True re-normalises the keyword table).'
 EXPLANATION = ('Static analysis of /repo sources, TatSu not imported. rule_call/semantics_call are executed abstractly with '
                'flags; validate_is_not_keyword is interpreted by the mini-evaluator on model contexts; table writers are '
